@@ -445,6 +445,31 @@ def _make_world(seed, kind):
                     frag = [(q + 11 * j, q + 700)] if strand == "+" else [(q, q + 700 - 11 * j)]
                     w.make_read(chrom, frag, truth={"class": "unspliced-tailed-novel"}, **tail)
                 p += 4200 + 700 + 2500
+        # two neighbouring annotated genes of one strand and an unannotated read-through transcript that takes ONE annotated intron from each
+        # (an exact tie in "which gene does the novel transcript belong to"); the gene ids sort like the coordinates at one locus and the
+        # other way round at the next
+        for ci, chrom in enumerate(w.chrom_order[:2]):
+            p = max([g.end for g in w.genes + thin if g.chrom == chrom] + [1000]) + 3000
+            for k, strand in enumerate("+-+-"):
+                if p + 9500 > w.chrom_len(chrom):
+                    break
+                ea = [(p, p + 300), (p + 900, p + 1150), (p + 1800, p + 2200)]
+                eb = [(p + 3700, p + 4000), (p + 4600, p + 4850), (p + 5500, p + 5900)]
+                ida, idb = ("RT%d_%da" % (ci + 1, k + 1), "RT%d_%db" % (ci + 1, k + 1)) if k < 2 else ("RT%d_%dz" % (ci + 1, k + 1), "RT%d_%dc" % (ci + 1, k + 1))
+                tail = {"polya": 30} if strand == "+" else {"polyt": 30, "flag": 16}
+                for gid, ex in ((ida, ea), (idb, eb)):
+                    g = Gene(gid, chrom, strand)
+                    g.transcripts.append(Transcript(gid + ".t1", gid, chrom, strand, ex, True, "read-through-neighbour"))
+                    for intr in g.transcripts[0].introns:
+                        w.plant_sites(chrom, intr, strand)
+                    w.genes.append(g)
+                    for j in range(6):
+                        w.make_read(chrom, list(ex), truth={"src": gid + ".t1", "class": "exact"}, **tail)
+                rt = [ea[0], ea[1], eb[1], eb[2]]
+                w.plant_sites(chrom, (ea[1][1] + 1, eb[1][0] - 1), strand)
+                for j in range(10):
+                    w.make_read(chrom, list(rt), truth={"class": "read-through-of-two-genes"}, **tail)
+                p += 5900 + 3500
         # the zoo loci that contain no exact positional tie (they bring their own error-free reads)
         w.genes += thin
         world2.add_zoo(w, ("ambiguous_only", "contested", "intronic", "apa", "same_coords"))
